@@ -132,6 +132,19 @@ class Machine:
                 for s in self.recipe["steps"])
         return "?" if self._volatile_names else name
 
+    def _volatile(self, var):
+        """Does program ``var`` depend on an input that is random per instance by design?"""
+        try:
+            need = G.needed_steps(self.recipe, var)
+        except Exception:  # noqa: BLE001
+            return True
+        for i in need:
+            s = self.recipe["steps"][i]
+            if s["op"] == "from_array" and (s["args"].get("lock") is True
+                                            or self.recipe["sources"][s["args"]["src"]].get("tokenizable", True) is False):
+                return True
+        return False
+
     # ------------------------------------------------------------------ pristine oracle
     def pristine_phase(self, vars_, probe_kinds=False):
         """For each program variable: reset -> build only its own steps under default
